@@ -24,6 +24,7 @@ def check(chk, thorough=False):
     chk.run('C03.l', 'R-SCHEMA', 'a null in the place of an endpoint ID is refused on decode (the AAD re-encodes the primary block and the security source: null would re-encode as dtn:none and still verify) (= C08.e clause)', lambda ob: __import__('sa.props.c08', fromlist=['eid_null_refused']).eid_null_refused(tree, ob), floor=1)
     chk.run('C03.m', 'R-SCHEMA', 'the decode is faithful to the item that arrived (types, endpoint ID normal form, deterministic encoding): the AAD re-encodes decoded blocks, another spelling of a covered value would still verify (= C08.e)', lambda ob: __import__('sa.props.c08', fromlist=['c08e']).c08e(tree, ob), floor=30)
     chk.run('C03.n', 'R-ORDER', 'on receive the confidentiality block is taken off before the integrity block over the same target is verified (the MAC was computed over the plaintext): an unaltered bundle with both verifies (= C12.a)', lambda ob: __import__('sa.props.c12', fromlist=['c12a']).c12a(tree, ob), floor=5)
+    chk.run('C03.o', 'R-TRUTH', 'a signer certificate is accepted for the security source only by exact match of the node ID with an identifier of the certificate (= C12.n = C15.c clause)', lambda ob: __import__('sa.props.c15', fromlist=['match_id_exact']).match_id_exact(tree, ob), floor=1)
     chk.run('C03.d', 'R-ORDER', 'a verification key comes only from the symmetric store by kid, or from a chain that was validated and whose node id matched; every other path raises', lambda ob: c03d(tree, ob), floor=4)
 
 
@@ -377,6 +378,7 @@ def _cert_store_complete(tree, ob):
 def c03d(tree, ob):
     _chain_validation(tree, ob)
     _cert_store_complete(tree, ob)
+    _thumbprint_fresh(tree, ob)
     fv = FuncView(tree, SEC, 'CoseContext._get_cose_key')
     rets = [r for r in walk_local(fv.func) if isinstance(r, ast.Return)]
     ob.require(len(rets) >= 2, 'key returns')
@@ -514,3 +516,24 @@ def c03j(tree, ob):
     else:
         ob.violate(rel, 'load_pem_chain', '{} not reset after {}'.format(acc, src(pc)[:50]), 'the lines of a parsed certificate stay in the accumulator: every later entry of the chain file parses as the first '
                    'certificate again, so a signer certified through an intermediate or under a second root cannot be verified and an unmodified bundle fails', pc)
+
+
+def _thumbprint_fresh(tree, ob):
+    ''' a certificate is found by the thumbprint the block names, computed with the hash algorithm the block names.  The
+    thumbprint compared is computed from the certificate octets with THAT algorithm at the time of the search; remembered per
+    certificate (whatever algorithm came first), a block that names the same certificate under another algorithm never
+    finds it and fails although nothing was altered. '''
+    fv = FuncView(tree, SEC, 'CertificateStore.find_chain')
+    cmps = [n for n in fv.cfg.nodes if n.kind == 'cond' and isinstance(n.ast, ast.Compare) and 'want_tprint' in src(n.ast)]
+    ob.require(cmps, 'comparison with the wanted thumbprint in find_chain')
+    for c in cmps:
+        for side in [c.ast.left] + list(c.ast.comparators):
+            if isinstance(side, ast.Name) and side.id != 'want_tprint':
+                for (dst, v) in fv.reaching_defs(side.id, c.ast):
+                    if v is None or not isinstance(v, ast.AST):
+                        continue
+                    if isinstance(v, ast.Call) and isinstance(v.func, ast.Attribute) and v.func.attr == 'compute_hash':
+                        ob.site(SEC, c.ast, 'thumbprint computed with the named algorithm at the time of the search')
+                    else:
+                        ob.violate(SEC, fv.qual, '{} = {}'.format(side.id, src(v)[:50]), 'the thumbprint compared with the wanted one is not (only) computed from the certificate with the algorithm of this search '
+                                   'but taken from a memo: under another hash algorithm the same certificate is never found, and an unaltered block fails to verify', dst if isinstance(dst, ast.AST) else c.ast, sure=True)
